@@ -158,6 +158,9 @@ pub struct WorldOpts {
     pub hashes: Vec<u8>,
     pub families: Vec<bool>,
     pub rng_seed: u64,
+    /// the deployment in which IPv4 hosts are served through the IPv6 socket alone: `use_ipv4 = false`, `set_only_ipv6 = false`.
+    /// IPv4-mapped sources are canonicalised to IPv4, so the IPv4 maps are in use although "IPv4 is off"
+    pub v6_socket_serves_v4: bool,
 }
 
 impl Default for WorldOpts {
@@ -172,6 +175,7 @@ impl Default for WorldOpts {
             hashes: vec![0],
             families: vec![true],
             rng_seed: 7,
+            v6_socket_serves_v4: false,
         }
     }
 }
@@ -210,6 +214,11 @@ impl UdpWorld {
         config.statistics.peer_clients = opts.peer_clients;
         config.statistics.print_to_stdout = opts.stats_active;
         config.access_list.mode = opts.access_mode;
+        if opts.v6_socket_serves_v4 {
+            config.network.use_ipv4 = false;
+            config.network.use_ipv6 = true;
+            config.network.set_only_ipv6 = false;
+        }
         if let Some(d) = &opts.export_dir {
             config.scrape_exports.enable_scrape_exports = true;
             config.scrape_exports.frequency = 1;
